@@ -320,7 +320,13 @@ def rule_scratch(fx, rep):
         rep.violation("C03-SCRATCH", f"C03-SCRATCH/{key}", msg, {"fn": h.name, "file": h.file, "line": line or h.line})
 
     acc = {fx.one(a).name: a for a in ACCESSORS}
-    used_by_hash = {norm(callee_name(t)) for bb, t in h.calls() if callee_name(t) and fx.body(callee_name(t)) and fx.body(callee_name(t)).name in acc}
+    # private helpers of the zobrist module that `hash` calls (e.g. a per-piece-set folding function) count as part of it
+    helpers = []
+    for bb, t in h.calls():
+        cb = fx.body(callee_name(t)) if callee_name(t) else None
+        if cb is not None and cb.name not in acc and norm(cb.name).startswith("chess::zobrist::") and cb.kind == "Fn" and cb not in helpers and cb is not h:
+            helpers.append(cb)
+    used_by_hash = {norm(callee_name(t)) for b0 in [h] + helpers for bb, t in b0.calls() if callee_name(t) and fx.body(callee_name(t)) and fx.body(callee_name(t)).name in acc}
     used_by_toggles = set()
     per_toggle = {}
     for tname in TOGGLES:
@@ -365,12 +371,20 @@ def rule_scratch(fx, rep):
         kind_of_method[mb.name] = kinds
     seen = set()
     loop_pieces = False
+    from facts import substitute_args
+    psites = []
     for bb, t in h.calls_to("zobrist::piece_on_square"):
-        pe = h.expr(t["args"][0], expand_named=True)
-        ke = h.expr(t["args"][1], expand_named=True)
+        psites.append((t, [h.expr(a, expand_named=True) for a in t["args"][:3]]))
+    for hb in helpers:
+        for bb, t in hb.calls_to("zobrist::piece_on_square"):
+            inner = [hb.expr(a, expand_named=True) for a in t["args"][:3]]
+            for bb2, t2 in h.calls():
+                if callee_name(t2) and fx.body(callee_name(t2)) is hb:
+                    actual = tuple(h.expr(a, expand_named=True, at=bb2) for a in t2["args"])
+                    psites.append((t2, [substitute_args(e, actual) for e in inner]))
+    for t, (pe, ke, sq) in psites:
         p = enum_const(pe)
         k = enum_const(ke)
-        sq = h.expr(t["args"][2], expand_named=True)
         if p is None and k is None:
             # loop form: `for player.. for kind.. for s in board.pieces_of_kind(kind, player) { piece_on_square(player, kind, s) }`
             gen = [x for x in walk(sq) if isinstance(x, tuple) and x[0] == "call" and isinstance(x[1], str) and x[1].endswith("Board::pieces_of_kind")]
